@@ -387,4 +387,84 @@ def rtWfBody : Body → Bool
     decide ((payloadModes items).length ≤ 1)
   | .derived .. => false
 
+/-! ### inheritance: what the decoder of an inheriting packet builds (C02 through ancestors) -/
+
+/-- the fields a decoded value of `b` carries before its payload: the own fields, then the ancestors'
+    fields that `decode_partial` copies (everything but the payload and the fields this level constrains) -/
+def fieldsAround : Body → Value → List (String × Value)
+  | .root _ items, v => canonItems items v
+  | .derived _ parent cs _ items, v =>
+    canonItems items v ++ (fieldsAround parent v).filter fun (k, _) => k != "payload" && !(cs.any (·.1 == k))
+
+/-- the value `decode` returns for the encoding of `v`, any body: fields as `fieldsAround`, then the payload -/
+def canonFull : Body → Value → Value
+  | .root nm items, v => canonBody (.root nm items) v
+  | .derived nm parent cs allCs items, v =>
+    .obj (fieldsAround (.derived nm parent cs allCs items) (withConstants allCs v) ++
+      (if items.hasPayload then [("payload", Value.ofBytes (payloadBytes v))] else []))
+
+/-- where the first field named `k` of a chunk is: `some true` = a scalar / enum field -/
+def chunkFind : List BitField → String → Option Bool
+  | [], _ => none
+  | .scalar id _ :: r, k => if id == k then some true else chunkFind r k
+  | .enumTy id _ _ :: r, k => if id == k then some true else chunkFind r k
+  | _ :: r, k => chunkFind r k
+
+def itemFind : Item → String → Option Bool
+  | .chunk fs, k => chunkFind fs k
+  | .typedef id _ _, k => if id == k then some false else none
+  | .optional id _ _ _, k => if id == k then some false else none
+  | .array id _ _ _ _, k => if id == k then some false else none
+  | .payload _, _ => none
+
+def itemsFind : Items → String → Option Bool
+  | .nil, _ => none
+  | .cons i r, k => (itemFind i k).or (itemsFind r k)
+
+/-- first field named `k` among `fieldsAround b`: `some true` = a scalar / enum bit-field, `some false` =
+    another kind of field, `none` = no such field -/
+def bodyFind : Body → String → Option Bool
+  | .root _ items, k => itemsFind items k
+  | .derived _ parent cs _ items, k =>
+    (itemsFind items k).or (if k != "payload" && !(cs.any (·.1 == k)) then bodyFind parent k else none)
+
+def Body.allCs : Body → List (String × Nat)
+  | .root .. => []
+  | .derived _ _ _ a _ => a
+
+/-- one level of the round-trippable class -/
+def rtWfLevel (items : Items) : Bool :=
+  rtWfItems items items && decWfItems [] items && decide ((arrayIds items).Nodup) &&
+  decide ((payloadModes items).length ≤ 1) && lenWfItems items
+
+/-- a constraint `(k, cv)` of a level whose parent is `gp`, in a packet whose leaf fixes `leafCs`: the leaf
+    serializes `cv` for `k`, and `k` is a scalar / enum field visible in the parent value or a field an
+    ancestor already constrains to the same value -/
+def constraintOk (leafCs : List (String × Nat)) (gp : Body) (kc : String × Nat) : Bool :=
+  leafCs.lookup kc.1 == some kc.2 && kc.1 != "payload" &&
+  (bodyFind gp kc.1 == some true || (bodyFind gp kc.1 == none && gp.allCs.lookup kc.1 == some kc.2))
+
+/-- the ancestors of a round-trippable inheriting packet -/
+def rtWfChain (leafCs : List (String × Nat)) : Body → Bool
+  | .root _ items => rtWfLevel items && items.hasPayload && itemsFind items "payload" == none
+  | .derived nm gp cs a items =>
+    rtWfLevel items && items.hasPayload && bodyFind (.derived nm gp cs a items) "payload" == none &&
+    cs.all (constraintOk leafCs gp) && rtWfChain leafCs gp
+
+/-- "takes all the rest" is decided at the outermost ancestor -/
+def greedyBody : Body → Bool
+  | .root _ items => greedyItems items
+  | .derived _ parent _ _ _ => greedyBody parent
+
+/-- the round-trippable class, inheriting packets included -/
+def rtWfFull : Body → Bool
+  | .root nm items => rtWfBody (.root nm items)
+  | .derived _ parent cs allCs items =>
+    rtWfLevel items && cs.all (constraintOk allCs parent) && rtWfChain allCs parent
+
+/-- the value has no field of its own under a constrained name (such a field does not exist in the
+    generated type) -/
+def noConstrained (allCs : List (String × Nat)) (v : Value) : Bool :=
+  allCs.all fun kc => (v.get? kc.1).isNone
+
 end Pdlv
